@@ -17,6 +17,8 @@ structure RawClosedE (Q : Env → List Ev → Prop) : Prop where
   raise : ∀ env i c, Q env [Ev.raise i c]
   /-- switching the action family is invisible to `Q`, or `Q` accounts for it -/
   fam : ∀ {env f l}, Q { env with fam := f } l → Q env l
+  /-- … and so is switching the control family -/
+  ctlf : ∀ {env k l}, Q { env with ctl := k } l → Q env l
   /-- a state scope: constructor, the inner trace one level deeper, `success` or not, destructor -/
   scope : ∀ {env l} (o : List Ev), (o = [] ∨ ∃ c, o = [Ev.ssucc (env.sd + 1) c env.sd]) →
     Q { env with sd := env.sd + 1 } l → Q env (Ev.sctor (env.sd + 1) :: l ++ o ++ [Ev.sdtor (env.sd + 1)])
@@ -35,6 +37,21 @@ def QRecS (Q : Env → List Ev → Prop) (rec : Rec) (a : AMode) (S : List Nat) 
 @[simp] theorem guardRestore_raw (m : RMode) (c : Cursor) (r : Ret) : (guardRestore m c r).raw = r.raw := by
   unfold guardRestore; split <;> rfl
 @[simp] theorem alwaysRestore_raw (c : Cursor) (r : Ret) : (alwaysRestore c r).raw = r.raw := rfl
+
+/-- The events of a conjunction of rule-level action calls satisfy any predicate closed under concatenation that holds
+    for each single call. -/
+theorem runActs_raw {Q : List Ev → Prop} (hnil : Q []) (happ : ∀ {a b}, Q a → Q b → Q (a ++ b)) (cx : Ctx) (sd : Nat)
+    (b e : Cursor) (hev : ∀ k, Q [Ev.ruleApply k sd (cx.rep b) (cx.rep e)]) :
+    ∀ acts : List RuleAct, Q (runActs cx sd b e acts).2
+  | [] => hnil
+  | x :: xs => by
+    simp only [runActs]
+    split
+    · exact hev _
+    · split
+      · exact hev _
+      · have := happ (hev x.id) (runActs_raw hnil happ cx sd b e hev xs)
+        simpa using this
 
 section
 variable {Q : Env → List Ev → Prop} (hQ : RawClosedE Q) {rec : Rec}
@@ -257,7 +274,8 @@ theorem rematchAll_rawE (a : AMode) (S : List Nat) (hrec : QRecS Q rec a S) (env
     apply mode, calls with actions disabled (`at`, `not_at`, `disable`), and — only for `enable` —
     calls with actions enabled. -/
 theorem body_rawS (cx : Ctx) (k : Nat) (kind : Kind) (a : AMode) (hrec : QRecS Q rec a kind.calls) (hoff : QRecS Q rec .nothing kind.calls)
-    (hon : (∃ c, kind = .enable c) → QRecS Q rec .action kind.calls) (m : RMode) (env : Env) (st : St) (r : Ret)
+    (hon : (∃ c, kind = .enable c) → QRecS Q rec .action kind.calls) (m : RMode) (env : Env)
+    (hract : a = .action → ∀ (acts : List RuleAct) (b e : Cursor), Q env (runActs cx env.sd b e acts).2) (st : St) (r : Ret)
     (h : body cx rec k kind a m env st = some r) : Q env r.raw := by
   cases kind with
   | atom atm => simp only [body, Option.some.injEq] at h; subst h; exact hQ.nil _
@@ -440,13 +458,36 @@ theorem body_rawS (cx : Ctx) (k : Nat) (kind : Kind) (a : AMode) (hrec : QRecS Q
     split
     · exact hQ.scope _ (Or.inr ⟨_, rfl⟩) q
     · exact hQ.scope _ (Or.inl rfl) q
+  | ifApply c acts =>
+    simp only [body] at h
+    split at h
+    · rename_i hc
+      simp only [Option.map_eq_some_iff] at h
+      obtain ⟨r0, h0, rfl⟩ := h
+      have h0' : rec c a .optional env st = some r0 := by rw [hc.1]; exact h0
+      have q := hrec _ (by simp [Kind.calls]) _ _ _ _ h0'
+      split
+      · simp only [dropOnFail_raw, guardRestore_raw]
+        exact hQ.app q (hract hc.1 _ _ _)
+      · simpa using q
+    · exact hrec _ (by simp [Kind.calls]) _ _ _ _ h
+  | control kc c => simp only [body] at h; exact hQ.ctlf (hrec _ (by simp [Kind.calls]) _ _ _ _ h)
+  | applyR acts =>
+    simp only [body] at h
+    split at h
+    · rename_i hc
+      simp only [Option.some.injEq] at h; subst h
+      simpa using hract hc.1 acts st.cur st.cur
+    · simp only [Option.some.injEq] at h; subst h
+      exact hQ.nil _
 
 
 /-- The unrestricted form: every callee's trace satisfies `Q`. -/
 theorem body_rawE (cx : Ctx) (k : Nat) (kind : Kind) (a : AMode) (hrec : QRecE Q rec a) (hoff : QRecE Q rec .nothing)
-    (hon : (∃ c, kind = .enable c) → QRecE Q rec .action) (m : RMode) (env : Env) (st : St) (r : Ret)
+    (hon : (∃ c, kind = .enable c) → QRecE Q rec .action) (m : RMode) (env : Env)
+    (hract : a = .action → ∀ (acts : List RuleAct) (b e : Cursor), Q env (runActs cx env.sd b e acts).2) (st : St) (r : Ret)
     (h : body cx rec k kind a m env st = some r) : Q env r.raw :=
-  body_rawS hQ cx k kind a (fun j _ => hrec j) (fun j _ => hoff j) (fun he j _ => hon he j) m env st r h
+  body_rawS hQ cx k kind a (fun j _ => hrec j) (fun j _ => hoff j) (fun he j _ => hon he j) m env hract st r h
 
 end
 
